@@ -14,8 +14,8 @@ RULE = (
     "personalisations, simulate} is run on each and compared bit-wise; snapshots around every call. evaluations = calls monitored; "
     "distinct_nontrivial = distinct (model cell, final call, history signature) tuples"
 )
-REQUIRED = {"calls_monitored": 300, "diff_fresh_vs_history": 40, "diff_fresh_vs_reload": 20, "diff_repeat_reused_settings": 40, "input_snapshots": 200,
-            "final_personalize": 40, "final_estimate": 15}
+REQUIRED = {"calls_monitored": 300, "diff_fresh_vs_history": 40, "diff_fresh_vs_reload": 20, "diff_repeat_reused_settings": 20, "input_snapshots": 200,
+            "final_personalize": 40, "final_estimate": 10, "diff_before_vs_after_history": 20}
 ASSUMPTIONS = [
     "two models 'hold the same parameters' when their parameter tensors are bit-identical; reload is compared only in that case (exactness of reload is C12's job)",
     "after a fit the model state documentedly keeps the training data; the monitor flags only data / individual values that a personalize / estimate / simulate "
@@ -23,7 +23,8 @@ ASSUMPTIONS = [
 ]
 GRID = [("logistic", 1, 0, "gaussian-scalar"), ("logistic", 2, 0, "gaussian-diagonal"), ("logistic", 3, 1, "gaussian-diagonal"), ("logistic", 3, 2, "gaussian-scalar"),
         ("linear", 2, 1, "gaussian-diagonal"), ("shared_speed_logistic", 3, 1, None), ("joint", 1, 0, None), ("joint", 3, 1, None), ("logistic", 2, 1, "bernoulli")]
-CALLS = ["estimate", "scipy_minimize", "mean_posterior", "mode_posterior", "simulate"]
+CALLS = ["estimate", "scipy_minimize", "mean_posterior", "mode_posterior", "simulate", "simulate_table"]
+HISTORY_ONLY = ["scipy_minimize_custom"]  # a personalisation with user-tuned optimiser options: must not influence later default calls
 
 
 def shards(tier, seed):
@@ -166,6 +167,28 @@ def run_shard(spec, ctx):
                     out = dig({"data": res.data.to_dataframe(), "ip": ipd if isinstance(ipd, pd.DataFrame) else ipd.to_pytorch()[1]})
                     if vp != vp_ref or feats != list(m.features):
                         ctx.violation("api/simulate/caller-inputs-modified", "simulate modified the visit parameters / feature list passed in", case)
+                elif what == "simulate_table":
+                    # visit design given as a table: IDs in inclusion order (not sorted), rows not sorted by age
+                    tab = pd.DataFrame({"ID": ["P3", "P3", "P1", "P1", "P1", "P2", "P2"], "TIME": [71.5, 70.0, 66.0, 68.5, 67.25, 80.0, 78.5]})
+                    tab_ref = tab.copy(deep=True)
+                    vp = {"visit_type": "dataframe", "df_visits": tab}
+                    feats = list(m.features)
+                    res = m.simulate(algorithm="simulate", features=feats, visit_parameters=vp, seed=1234)
+                    ipd = res.individual_parameters
+                    out = dig({"data": res.data.to_dataframe(), "ip": ipd if isinstance(ipd, pd.DataFrame) else ipd.to_pytorch()[1]})
+                    ctx.count("input_snapshots")
+                    if not (tab.equals(tab_ref) and list(tab.index) == list(tab_ref.index) and list(tab.dtypes) == list(tab_ref.dtypes)):
+                        ctx.violation("api/simulate/caller-visit-table-modified", "simulate modified (reordered / changed) the visit table passed in", case)
+                    # the same table object reused for a second call: same answer
+                    res2 = m.simulate(algorithm="simulate", features=feats, visit_parameters=vp, seed=1234)
+                    ipd2 = res2.individual_parameters
+                    out2 = dig({"data": res2.data.to_dataframe(), "ip": ipd2 if isinstance(ipd2, pd.DataFrame) else ipd2.to_pytorch()[1]})
+                    if out2 != out:
+                        ctx.violation("api/simulate/repeat-with-reused-table-differs", "simulate called twice with the same visit-table object and seed gives two answers", case)
+                elif what == "scipy_minimize_custom":
+                    ipr = m.personalize(ds_in, "scipy_minimize", seed=77, progress_bar=False, use_jacobian=False,
+                                        custom_scipy_minimize_params={"method": "Powell", "options": {"xtol": 1e-2, "ftol": 1e-2, "maxiter": 30}})
+                    out = dig({"ids": list(ipr._indices), "ip": ipr.to_pytorch()[1]})
                 else:
                     use_df = bool(rng.random() < 0.5) and not events
                     data_arg = df_in.set_index(["ID", "TIME"]) if use_df else ds_in
@@ -203,19 +226,25 @@ def run_shard(spec, ctx):
             ages["ip"] = ip0
             ages["t"] = {sid: [float(x) for x in rng.uniform(50, 95, size=int(rng.integers(1, 5)))] for sid in ip0._indices}
             # random intermediate history on `hist`
-            allowed = [c for c in CALLS if not (c == "simulate" and (kind != "logistic" or binary or src < 1))]
+            allowed = [c for c in CALLS if not (c.startswith("simulate") and (kind != "logistic" or binary or src < 1))]
+            finals = allowed if ctx.tier == "thorough" else [allowed[(spec["k"] + i + j) % len(allowed)] for j in range(3)]
+            finals = list(dict.fromkeys(finals))
+            # answers BEFORE anything else happens in this interpreter on these models (process-level history must not matter either)
+            before_any = {what: do_call(reload_, what, who="reloaded(before any other call)") for what in finals} if reload_same else {}
             h_len = int(rng.integers(1, 5))
-            history = [allowed[int(rng.integers(len(allowed)))] for _ in range(h_len)]
+            hist_ops = allowed + ([] if kind in ("joint",) else HISTORY_ONLY)
+            history = [hist_ops[int(rng.integers(len(hist_ops)))] for _ in range(h_len)]
+            if (spec["k"] + i) % 3 == 0 and kind not in ("joint",) and "scipy_minimize_custom" not in history:
+                history.append("scipy_minimize_custom")
             for what in history:
                 do_call(hist, what, who="history-model(intermediate)")
             # final calls
-            finals = allowed if ctx.tier == "thorough" else [allowed[(spec["k"] + i + j) % len(allowed)] for j in range(3)]
-            for what in dict.fromkeys(finals):
+            for what in finals:
                 case = dict(case0, final=what, history=history)
                 o_fresh = do_call(fresh, what, who="fresh-from-fit")
                 o_hist = do_call(hist, what, who="after-history")
                 ctx.count("diff_fresh_vs_history")
-                ctx.count("final_estimate" if what == "estimate" else ("final_simulate" if what == "simulate" else "final_personalize"))
+                ctx.count("final_estimate" if what == "estimate" else ("final_simulate" if what.startswith("simulate") else "final_personalize"))
                 key_suffix = "scipy_minimize/start-from-leftover-state" if what == "scipy_minimize" else f"api/{what}/result-depends-on-earlier-calls"
                 if o_fresh != o_hist:
                     ctx.violation(key_suffix, f"{what}: result on the freshly fitted model differs from the result on the same-parameter model after {history}", case)
@@ -224,6 +253,10 @@ def run_shard(spec, ctx):
                     ctx.count("diff_fresh_vs_reload")
                     if o_rel != o_fresh:
                         ctx.violation(key_suffix, f"{what}: result on the freshly fitted model differs from the result on its reloaded copy (same parameters)", case)
+                    ctx.count("diff_before_vs_after_history")
+                    if before_any.get(what) is not None and before_any[what] != o_rel:
+                        ctx.violation(f"api/{what}/result-depends-on-earlier-calls-in-the-process",
+                                      f"{what}: the same call on the same reloaded model gives another answer after {history} were run on another model object", case)
                     if what in ("scipy_minimize", "mean_posterior", "mode_posterior"):
                         kws = dict(seed=77, progress_bar=False)
                         kws.update(dict(use_jacobian=False) if what == "scipy_minimize" else dict(n_iter=12, n_burn_in_iter=4))
